@@ -117,6 +117,12 @@ fn compatible(a: &str, b: &str) -> bool {
     if a == "no-trait-instr" || b == "no-trait-instr" {
         return false;
     }
+    // a dedicated #[parent(T| ..)] (the duplicate-member-parent fault writes two) shadows the default #[parent(..)] of the same member
+    // for T: a misuse inside that default one is then no misuse for T's conversions (they never select it)
+    let parent_group = |c: &str| matches!(c, "duplicate-member-parent" | "untyped-nested-parent" | "unnamed-parent-child");
+    if parent_group(a) && parent_group(b) && a != b {
+        return false;
+    }
     true
 }
 
